@@ -20,9 +20,11 @@ import (
 	"net/http"
 	"strings"
 	"sync"
+	"sync/atomic"
 	"time"
 
 	"github.com/IrineSistiana/mosproxy/internal/upstream"
+	"github.com/IrineSistiana/mosproxy/internal/upstream/transport"
 	"github.com/miekg/dns"
 	"github.com/quic-go/quic-go"
 	"github.com/quic-go/quic-go/http3"
@@ -174,9 +176,12 @@ func c14doqOnce(m map[string]string) c14outcome {
 	a0 := srv.accepts
 	srv.mu.Unlock()
 	out.ok, out.el = c14timed(up, dl, c14query("victim", 0))
-	srv.mu.Lock()
-	out.dials, out.att = srv.accepts-a0, srv.vq
-	srv.mu.Unlock()
+	snap := func() (int, int) { srv.mu.Lock(); defer srv.mu.Unlock(); return srv.accepts, srv.vq }
+	a1, vq := snap()
+	if c14scriptSilent(script) {
+		a1, vq = c14settle(snap)
+	}
+	out.dials, out.att = a1-a0, vq
 	return out
 }
 
@@ -255,7 +260,106 @@ func c14h3Once(m map[string]string) c14outcome {
 	return out
 }
 
+// ---- D34 (fixed 69d4cbf), deterministically: a QUIC connection that is DYING — its streams fail with
+// a connection-level error while its context is not done yet (quic-go fails the streams first and
+// cancels the context afterwards) — must not be handed out again: the retry has to dial.
+//   case : tr=quic fault=dyingconn mode=<pooled|fresh> … script=<tok,…> obs=d
+//   the REAL transport.NewQuicTransport with a dialer that wraps the real connections:
+//   mode=pooled: one exchange first; then the pooled connection starts dying after as many OpenStream
+//     calls as the script has p-tokens before `pkill` (those streams get the server's behaviours);
+//   mode=fresh : the first connection is dying from the start (the first exchange fails on it), the
+//     victim must dial.
+//   the victim's dial is refused if the script's dial token is gR.
+
+type c14dyingConn struct {
+	quic.Connection
+	okStreams *atomic.Int64 // OpenStream calls that still pass; below zero: dying
+}
+
+func (c *c14dyingConn) OpenStream() (quic.Stream, error) {
+	if c.okStreams.Add(-1) < 0 {
+		return nil, &quic.ApplicationError{Remote: true, ErrorCode: 0}
+	}
+	return c.Connection.OpenStream()
+}
+
+func c14dyingOnce(m map[string]string) c14outcome {
+	script := strings.Split(m["script"], ",")
+	dl := atoi(m["dl"])
+	out := c14outcome{woke: true}
+	srv, err := c14newQsrv("")
+	if err != nil {
+		out.setupFailed = "listen"
+		return out
+	}
+	defer srv.close()
+	addr := srv.ln.Addr().String()
+	var sv []string
+	pre, dialTok := 0, ""
+	seenKill := false
+	for _, t := range script {
+		switch {
+		case t == "pkill":
+			seenKill = true
+		case t[0] == 'g':
+			if dialTok == "" {
+				dialTok = t
+			}
+		default:
+			sv = append(sv, t[1:])
+			if t[0] == 'p' && !seenKill {
+				pre++
+			}
+		}
+	}
+	var dials atomic.Int64
+	var refuse atomic.Bool
+	var first atomic.Pointer[atomic.Int64]
+	dial := func(ctx context.Context) (quic.Connection, error) {
+		n := dials.Add(1)
+		if refuse.Load() {
+			return nil, fmt.Errorf("refused")
+		}
+		c, err := quic.DialAddr(ctx, addr, &tls.Config{InsecureSkipVerify: true, NextProtos: []string{"doq"}},
+			&quic.Config{MaxIdleTimeout: 30 * time.Second})
+		if err != nil {
+			return nil, err
+		}
+		if n == 1 {
+			cnt := new(atomic.Int64)
+			cnt.Store(1 << 40)
+			if m["mode"] == "fresh" {
+				cnt.Store(0)
+			}
+			first.Store(cnt)
+			return &c14dyingConn{Connection: c, okStreams: cnt}, nil
+		}
+		return c, nil
+	}
+	tr := transport.NewQuicTransport(transport.QuicTransportOpts{DialContext: dial})
+	defer tr.Close()
+	ok1 := c14setupExchange(tr, c14query("plain", 0))
+	if ok1 != (m["mode"] != "fresh") {
+		out.setupFailed = "first-exchange"
+		return out
+	}
+	if cnt := first.Load(); cnt != nil && m["mode"] != "fresh" {
+		cnt.Store(int64(pre))
+	}
+	srv.mu.Lock()
+	srv.script, srv.vi = sv, 0
+	srv.mu.Unlock()
+	refuse.Store(dialTok == "gR")
+	d0 := dials.Load()
+	out.ok, out.el = c14timed(tr, dl, c14query("victim", 0))
+	out.dials = int(dials.Load() - d0)
+	return out
+}
+
 func c14quicOnce(m map[string]string) c14outcome {
+	if m["fault"] == "dyingconn" {
+		return c14dyingOnce(m)
+	}
 	if m["tr"] == "h3" {
 		return c14h3Once(m)
 	}
@@ -289,9 +393,18 @@ func c14quicCases(r *rand.Rand, thorough bool) []c14case {
 	add("quic", "pooled", "pfin,pgar,prst,pok", "ad")
 	add("quic", "connkill", "prst,fok", "ad") // the connection dies under the exchange: redial
 	add("quic", "idleclose", "fok", "d")
+	// a dying connection (streams fail with a connection-level error, context not done yet)
+	l = append(l, c14case{"tr=quic fault=dyingconn mode=pooled loop=quic script=pkill,fok obs=d dl=2400", "quic/dyingconn/pooled"})
+	l = append(l, c14case{"tr=quic fault=dyingconn mode=fresh loop=quic script=fok obs=d dl=2400", "quic/dyingconn/fresh"})
+	l = append(l, c14case{"tr=quic fault=dyingconn mode=pooled loop=quic script=prst,pfin,pkill,fok obs=d dl=2400", "quic/dyingconn/pooled"})
+	l = append(l, c14case{"tr=quic fault=dyingconn mode=pooled loop=quic script=pkill,gR obs=d dl=2400", "quic/dyingconn/refused"})
 	add("quic", "app", "fsil", "ad")
 	add("quic", "pooled", "prst,psil", "ad")
 	if thorough {
+		for k := 1; k <= 4; k++ {
+			l = append(l, c14case{fmt.Sprintf("tr=quic fault=dyingconn mode=pooled loop=quic script=%s obs=d dl=2400", rep("prst", k, "pkill,fok")), "quic/dyingconn/pooled"})
+		}
+		l = append(l, c14case{"tr=quic fault=dyingconn mode=pooled loop=quic script=pgar,pkill,ffin obs=d dl=2400", "quic/dyingconn/ffin"})
 		add("quic", "refuse", "gB", "-") // nothing answers the handshake: the dial hangs
 		add("quic", "app", "fhalf", "ad")
 		add("quic", "pooled", "phalf", "ad")
@@ -312,4 +425,3 @@ func c14quicCases(r *rand.Rand, thorough bool) []c14case {
 	}
 	return l
 }
-
